@@ -2,13 +2,14 @@
    ONLY statements; proofs are `exact <lemma of Proofs/RegistryProofs.v>`.
    The model's `step` (Model/Registry.v; the same function C03 and C14 tie to the code) only ever appends cells:
    every field value, id and content_id of a node that existed before a step - for every operation of the language
-   (construct, duplicate, both replaces succeeding or raising, detach, detach_self, drop, the read-only calls), for
+   (construct, duplicate, both replaces succeeding or raising, detach, detach_self, drop, the read-only calls, as_dict and
+   as_obj: the forced-id write of _deserialize only ever touches the node built by the same call), for
    every digest H and for both variants of detach - is what it was.  What may change for an existing node is its
    registry membership only (reg), as C03 / C14 specify.  That the implementation behaves like `step` here is what
    the correspondence run decides: after every operation every dataclass field, id, content_id and hash of every
    pre-existing node is re-read and compared with its value before the operation, and setattr / delattr on every
    field must raise. *)
-From Oak Require Import Model.Registry Proofs.RegistryProofs Proofs.RegistryReach.
+From Oak Require Import Model.Registry Model.RegistrySer Proofs.RegistryProofs Proofs.RegistryReach Proofs.RegistrySerProofs.
 
 Theorem C10_heap_frame : forall H ct late fx s o a, a < length (heap s) ->
   nth_error (heap (fst (step H ct late fx s o))) a = nth_error (heap s) a.
@@ -43,3 +44,25 @@ Example C10_ex_fail_late :
   RInv ex_state /\ snd r = Raised EValue /\ length (heap (fst r)) = 4 /\ firstn 3 (heap (fst r)) = heap ex_state
   /\ get_any (fst r) (lit ")_1") = Some 1.
 Proof. split; [exact ex_state_inv|vm_compute; repeat split]. Qed.
+
+(* ---- deserialization.  C10_heap_frame / C10_history_frame / C10_fail_frame above cover `AsDict` and `AsObj` (they are
+        operations of `step`).  What as_obj is NOT allowed to do either - change the registry membership of an existing
+        node ("the only effect an operation may have on an existing node is its registry membership as specified for detach
+        and replace") - is proved for the code in /repo: an existing node is found under an id after the call exactly when
+        it was found under it before, whether the call returns or is rejected half-way, for every H ---- *)
+Theorem C10_deser_membership : forall H ct late fuel s v s', Inv0 s ->
+  (deser H ct late true fuel s v = DLate s' \/ exists a, deser H ct late true fuel s v = DOk s' a) ->
+  forall j b, b < length (heap s) -> (get_any s' j = Some b <-> get_any s j = Some b).
+Proof. exact deser_membership. Qed.
+Theorem C10_deser_frame : forall H ct late fuel s v s', Inv0 s ->
+  (deser H ct late true fuel s v = DLate s' \/ exists a, deser H ct late true fuel s v = DOk s' a) ->
+  (forall j b, get_any s j = Some b -> get_any s' j = Some b) /\
+  (forall a, a < length (heap s) -> cell_at s' a = cell_at s a) /\ det s' = det s /\ Inv0 s'.
+Proof. exact deser_never_evicts. Qed.
+(* partly alive (x alive, y and the parent dropped): reading the parent's dict back builds two nodes; the three old cells
+   are what they were *)
+Example C10_ex_asobj_frame :
+  let s0 := run ser_H ser_ct no_late true (init_st 4) (firstn 6 ser_ops) in
+  let s := fst (step ser_H ser_ct no_late true s0 (AsObj 0 3)) in
+  RInv s0 /\ length (heap s0) = 3 /\ length (heap s) = 5 /\ firstn 3 (heap s) = heap s0 /\ vars s = [Some 0; None; None; Some 4].
+Proof. split; [apply run_inv; apply inv_init|vm_compute; repeat split]. Qed.
